@@ -402,3 +402,22 @@ PROPS["C20"] = dict(
         dict(pkg="./pkg/cgroup", run="^VerifC20_Writers$", replay="model", preempt=0, reach=["addproc", "memlimit", "proclimit"]),
     ],
 )
+
+PROPS["C05"] = dict(
+    level="other",
+    level_text=("Bounded symbolic execution of both mount sequences (raw in-child section of forkAndExecInChild under the kernel model; container initFileSystem/Mount.Mount/maskPath with syscall stubs) "
+                "for a table built by the real Builder (bind ro/rw of a directory or file, a filtered non-existent source, tmpfs, proc ro/rw) with the source's statfs flag word a 64-bit solver "
+                "variable, judged by one K-MNT oracle: read-only entries are effectively read-only (a plain bind ignores MS_RDONLY), the read-only remount keeps every locked source flag, the root "
+                "is a fresh tmpfs remounted read-only, the old root is detached and removed, nothing but the configured mount points is created, masked paths are covered."),
+    level_note=SYMEX_NOTE + KERN_NOTE + "K-MNT clauses (bind ignores RDONLY; remount|bind replaces per-mount flags and must keep locked ones; fs mounts honour RDONLY) are the contract; that Linux implements them is outside.",
+    explanation="mount section of forkAndExecInChild, mount.Builder, Mount.ToSyscall/pathPrefix, container.initFileSystem, Mount.Mount, maskPath executed symbolically.",
+    bounds={"mount table": "4 entries (one filtered), nested target depth 2-3", "statfs flags": "all 2^64 words", "masked object": "file / directory / absent"},
+    outside=["reachability through /proc magic links and kernel escapes", "nosuid/nodev of writable bind mounts (kernel ignores them without remount)"],
+    assumptions=["K-MNT contract"],
+    harnesses=[
+        dict(pkg=FE, run="^VerifC05_RawMounts$", replay="model", preempt=0, reach=["execed", "read-only-entry", "writable-entry", "file-bind"]),
+        dict(pkg=CT, run="^VerifC05_ContainerMounts$", replay="model", preempt=0, reach=["read-only-entry", "writable-entry", "mask-file", "mask-dir", "mask-absent"]),
+        dict(pkg="./pkg/mount", run="^VerifC05_BuilderFlags$", replay="native", preempt=0, reach=["done"]),
+    ],
+)
+NOT_APPLICABLE = {}
